@@ -32,7 +32,9 @@ def optimize_xy_separable(x, y):
     if x.ndim == 2:
         # assume same dimensionality of x and y
         # second indexing converts y to a broadcasted column vector
-        x = x[0, :]
+        # a row and a column, like the 1D branch below (a bare 1D x would be taken
+        # for a grid axis by cart_to_polar)
+        x = x[0, :][np.newaxis, :]
         y = y[:, 0][:, np.newaxis]
     else:
         x = x.reshape(1, -1)
